@@ -1,28 +1,30 @@
 """C15 — the real side: runs public-API operations of the real beartype on 2–3 threads under the
 controlled scheduler (`harness/sched.py`) and, for reference, in every sequential order.
 
-Run as `python -m harness.impl.c15_worker` with JSON on stdin:
-  {"mode": "explore", "scenario": S, "seed": n, "gran": "line"|"opcode", "budget": {...}}
-  {"mode": "replay",  "scenario": S, "gran": g, "rle": [[tid, n], ...]}
+Run as `python -m harness.impl.c15_worker` with JSON on stdin (one *episode* = one fresh interpreter):
+  {"scenario": S, "gran": "line"|"opcode", "seed": n, "budget": {...}}      explore: schedules generated from the seed
+  {"scenario": S, "gran": g, "specs": [chooser spec, ...]}                  run exactly these schedules, in this order
+                                                                            (replay: the verdict of the LAST one counts)
 
 Scenario S = {"kind": str, "warm": bool, "threads": [[op, ...], ...], "queries": [name, ...]}
   op = ["conf", K]              BeartypeConf(**CONFS[K]) (kwargs rebuilt on every call)
-     | ["typehint", H]          TypeHint(HINTS[H]())   (hint object rebuilt on every call: equal, not identical)
-     | ["is_bearable", O, H]    is_bearable(OBJS[O](), HINTS[H]())
+     | ["typehint", H]          TypeHint(HINTS[H])       (hint object rebuilt on every call: equal, not identical)
+     | ["is_bearable", O, H]    is_bearable(OBJS[O], HINTS[H])
      | ["die_if", O, H]         die_if_unbearable(...)
      | ["is_subhint", H1, H2]
      | ["decorate", slot, H, K] slot := beartype(conf=CONFS[K])(def f(x: HINTS[H]) -> HINTS[H]: return x)
-     | ["call", slot, O]        slot(OBJS[O]())
+     | ["call", slot, O]        slot(OBJS[O])
      | ["decor_factory", K]     beartype(conf=CONFS[K])   (the lock-free decorator memo)
      | ["pkg", name, K] | ["pkgs", [names], K] | ["all", K]      beartype.claw registrations
      | ["lookup", name]         get_package_conf_or_none(name)  (what the import hook consults)
      | ["enter", K] | ["exit"]  with beartyping(conf=CONFS[K]):  entered / left
 
-Every trial runs in a child forked from ONE parent state (all beartype submodules imported, cooperative
-locks installed, optional fixed warm-up executed), so that: (a) operations see "fresh" hints and
-configurations in every trial, (b) the yield points reached depend on the schedule only, which makes a
-recorded schedule a deterministic replay, (c) the sequential reference (the same operations merged into
-one thread in EVERY order) starts from the same state.
+State discipline. Every *trial* (one concurrent schedule or one sequential reference order) gets a brand-new
+vocabulary: two classes created for that trial, hints/objects built over them, configurations carrying a
+trial-unique option value. Hence every trial meets "fresh" hints and configurations (cold cache entries for
+them) although all trials of an episode share one interpreter; the claw registry is reset with beartype's own
+`claw_state.reinit()` before each trial. An episode is a deterministic function of its JSON payload, which is
+what makes `--replay` deterministic: the replay re-runs the recorded schedule(s) in a fresh interpreter.
 
 Reported per trial: per-operation outcomes in canonical form (values, exception class names, identity
 classes of returned singletons by first occurrence), final registry observation, pool-monitor events
@@ -36,11 +38,8 @@ import json
 import os
 import pkgutil
 import random
-import select
-import signal
 import sys
 import time
-import traceback
 
 REPO = os.environ.get('VERIF_REPO', '/repo')
 PFX = REPO.rstrip('/') + '/beartype/'
@@ -56,88 +55,82 @@ FOCUS_REL = [
     '_check/convert/_convcoerce.py',
 ]
 FOCUS = [PFX + f for f in FOCUS_REL]
+# focus files that are NOT lock-free memo code: their locations get exhaustive single/double preemption
+CORE_REL = [f for f in FOCUS_REL if f not in ('_util/cache/utilcachecall.py', '_check/convert/_convcoerce.py')]
 
 
 # ---------------------------------------------------------------------------
-# vocabularies (JSON-addressable by key)
+# per-trial vocabulary (JSON-addressable by key)
 # ---------------------------------------------------------------------------
-class UserA:
-    pass
+class Vocab:
+    def __init__(self, n: int):
+        import typing as t
+        from beartype import BeartypeStrategy
+        from beartype.vale import IsAttr, IsEqual
+        self.n = n
+        A = type(f'UserA{n}', (), {})
+        B = type(f'UserB{n}', (A,), {})
+        self.A, self.B = A, B
+        self.hints = {
+            'list_A': lambda: list[A],
+            'dict_str_list_A': lambda: dict[str, list[A]],
+            'tuple_fixed': lambda: tuple[int, str, B],
+            'tuple_var': lambda: tuple[A, ...],
+            'union': lambda: t.Union[int, list[A], None],
+            'opt_set': lambda: t.Optional[set[B]],
+            'nested': lambda: list[dict[int, tuple[A, ...]]],
+            'annot': lambda: t.Annotated[list[A], IsAttr['__class__', IsEqual[list]]],
+            'seq_union': lambda: t.Sequence[t.Union[A, str]],
+            'type_A': lambda: type[A],
+            'cls_A': lambda: A,
+            'cls_B': lambda: B,
+            'unhashable': lambda: t.Annotated[A, []],
+        }
+        self.objs = {
+            'int': lambda: 3, 'str': lambda: 'a', 'none': lambda: None,
+            'list_A': lambda: [A(), B()], 'list_str': lambda: ['a', 'b'], 'list_empty': lambda: [],
+            'dict_ok': lambda: {'k': [A()]}, 'dict_bad': lambda: {'k': ['x']},
+            'tuple_ok': lambda: (1, 's', B()), 'tuple_bad': lambda: (1, 2, 3), 'tuple_A': lambda: (A(), B()),
+            'set_B': lambda: {B()}, 'nested_ok': lambda: [{1: (A(), B())}], 'nested_bad': lambda: [{1: (2,)}],
+            'A': lambda: A(), 'B': lambda: B(), 'clsB': lambda: B, 'clsint': lambda: int,
+        }
+        u = f'uniq{n}'
+        self.confs = {
+            'K0': lambda: dict(claw_skip_package_names=(u,)),
+            'K1': lambda: dict(is_debug=True, claw_skip_package_names=(u,)),
+            'K2': lambda: dict(is_debug=True, is_color=False, claw_skip_package_names=(u, 'skipme')),
+            'K2b': lambda: dict(claw_skip_package_names=(u, 'skipme'), is_color=False, is_debug=True),
+            'K3': lambda: dict(strategy=BeartypeStrategy.On, claw_skip_package_names=(u,)),
+            'K4': lambda: dict(is_pep484_tower=True, violation_type=ValueError, claw_skip_package_names=(u,)),
+            'K5': lambda: dict(warning_cls_on_decorator_exception=UserWarning, claw_skip_package_names=(u,)),
+            'K6': lambda: dict(claw_skip_package_names=(u, 'pa.sub')),
+        }
+        self.uniq = u
 
 
-class UserB(UserA):
-    pass
-
-
-def _hints():
-    import typing as t
-    from beartype.vale import Is, IsAttr, IsEqual
-    return {
-        'list_int': lambda: list[int],
-        'dict_str_list_A': lambda: dict[str, list[UserA]],
-        'tuple_fixed': lambda: tuple[int, str, UserB],
-        'tuple_var': lambda: tuple[UserA, ...],
-        'union': lambda: t.Union[int, list[str], None],
-        'opt_set': lambda: t.Optional[set[bytes]],
-        'nested': lambda: list[dict[int, tuple[str, ...]]],
-        'annot': lambda: t.Annotated[list[int], IsAttr['__class__', IsEqual[list]]],
-        'literal': lambda: t.Literal['a', 7],
-        'seq_union': lambda: t.Sequence[t.Union[int, str]],
-        'type_A': lambda: type[UserA],
-        'fwd': lambda: list['UserA'],
-        'cls_A': lambda: UserA,
-        'unhashable': lambda: t.Annotated[int, []],
-    }
-
-
-def _objs():
-    return {
-        'int': lambda: 3, 'str': lambda: 'a', 'none': lambda: None,
-        'list_int': lambda: [1, 2, 3], 'list_str': lambda: ['a', 'b'], 'list_empty': lambda: [],
-        'dict_ok': lambda: {'k': [UserA()]}, 'dict_bad': lambda: {'k': ['x']},
-        'tuple_ok': lambda: (1, 's', UserB()), 'tuple_bad': lambda: (1, 2, 3), 'tuple_A': lambda: (UserA(), UserB()),
-        'set_bytes': lambda: {b'x'}, 'nested_ok': lambda: [{1: ('a', 'b')}], 'nested_bad': lambda: [{1: (2,)}],
-        'A': lambda: UserA(), 'clsB': lambda: UserB, 'clsint': lambda: int, 'seq_mixed': lambda: [1],
-    }
-
-
-def _confs():
-    from beartype import BeartypeStrategy
-    return {
-        'K0': lambda: {},
-        'K1': lambda: dict(is_debug=True),
-        'K2': lambda: dict(is_debug=True, is_color=False, claw_skip_package_names=('skipme',)),
-        'K2b': lambda: dict(claw_skip_package_names=('skipme',), is_color=False, is_debug=True),
-        'K3': lambda: dict(strategy=BeartypeStrategy.On),
-        'K4': lambda: dict(is_pep484_tower=True, violation_type=ValueError),
-        'K5': lambda: dict(warning_cls_on_decorator_exception=UserWarning),
-        'K6': lambda: dict(claw_skip_package_names=('pa.sub',)),
-    }
-
-
-HINTS = OBJS = CONFS = None
 POOL_EVENTS: list = []
 _HELD: dict = {}
+_TRIALS = [0]
 
 
 # ---------------------------------------------------------------------------
-# set-up of the parent state
+# set-up of the episode's interpreter
 # ---------------------------------------------------------------------------
 def setup(warm: bool):
-    global HINTS, OBJS, CONFS
-    sys.path.insert(0, REPO)
+    if REPO not in sys.path:
+        sys.path.insert(0, REPO)
     import warnings
     warnings.simplefilter('ignore')
     import beartype
     assert os.path.realpath(beartype.__file__).startswith(os.path.realpath(REPO)), beartype.__file__
+    # every submodule is imported up front: lazy imports inside traced code would take CPython's (real) import locks
     for m in pkgutil.walk_packages(beartype.__path__, 'beartype.'):
         try:
             importlib.import_module(m.name)
         except BaseException:  # noqa: BLE001 optional dependencies
             pass
-    HINTS, OBJS, CONFS = _hints(), _objs(), _confs()
     if warm:
-        # fixed warm-up on OTHER hints/configurations: lazy imports and global one-time initialisation happen here
+        # fixed warm-up on OTHER hints/configurations: global one-time initialisation happens here
         from beartype import BeartypeConf, beartype as bt
         from beartype.door import TypeHint, die_if_unbearable, is_bearable
         import typing as t
@@ -159,7 +152,34 @@ def setup(warm: bool):
     from .. import sched
     locks = sched.install_coop_locks('beartype')
     _install_pool_monitor()
+    _snapshot_pools()
     return locks
+
+
+_POOLS: list = []
+
+
+def _snapshot_pools():
+    """Remember how many idle items every object pool holds after set-up; `fresh_trial` trims the pools back to
+    that (pools only ever grow: their size is the highest concurrency seen so far, and an `acquire` race needs a
+    pool that can run empty, which after the first concurrent trial would never happen again)."""
+    import gc
+    from beartype._util.cache.pool.utilcachepool import KeyPool
+    for o in gc.get_objects():
+        if isinstance(o, KeyPool):
+            _POOLS.append((o, {k: len(v) for k, v in o._key_to_pool.items()}))
+
+
+def _reset_pools():
+    for pool, sizes in _POOLS:
+        for k, lst in list(pool._key_to_pool.items()):
+            n = sizes.get(k)
+            if n is None:
+                del pool._key_to_pool[k]
+            else:
+                del lst[n:]
+        if hasattr(pool, '_pool_item_id_to_is_acquired'):
+            pool._pool_item_id_to_is_acquired.clear()
 
 
 def _install_pool_monitor():
@@ -181,76 +201,88 @@ def _install_pool_monitor():
         _HELD[id(item)] = (tid(), item)
         return item
 
-    def release(self, item, *a, **k):
-        if 'item' in k:
-            item = k.pop('item')
+    def release(self, *a, **k):
+        item = k['item'] if 'item' in k else a[0]
         _HELD.pop(id(item), None)
-        return real_rel(self, item, *a, **k)
+        return real_rel(self, *a, **k)
     up.KeyPool.acquire, up.KeyPool.release = acquire, release
     ui._instance_pool_acquire = ui._instance_pool.acquire
     ui._instance_pool_release = ui._instance_pool.release
+
+
+def fresh_trial() -> Vocab:
+    from beartype.claw._clawstate import claw_state
+    claw_state.reinit()
+    _reset_pools()
+    POOL_EVENTS.clear()
+    _HELD.clear()
+    _TRIALS[0] += 1
+    return Vocab(_TRIALS[0])
 
 
 # ---------------------------------------------------------------------------
 # operations
 # ---------------------------------------------------------------------------
 class Ctx:
-    def __init__(self, nthreads):
+    def __init__(self, nthreads, v: Vocab):
+        self.v = v
         self.slots = {}
         self.stacks = [[] for _ in range(nthreads)]
         self.objs = []        # raw singleton results, for identity classes
 
 
-def conf_label(c):
+def conf_label(c, v: Vocab):
     if c is None:
         return 'none'
     return f'dbg={int(c.is_debug)},warn={getattr(c.warning_cls_on_decorator_exception, "__name__", None)},' \
-           f'skip={",".join(c.claw_skip_package_names)},strategy={c.strategy.name},tower={int(c.is_pep484_tower)}'
+           f'skip={",".join(s for s in c.claw_skip_package_names if s != v.uniq)},strategy={c.strategy.name},' \
+           f'tower={int(c.is_pep484_tower)}'
 
 
 def do_op(op, ctx: Ctx, tid: int):
     """Execute one operation against the real beartype; canonical outcome (never raises)."""
     from beartype import BeartypeConf, beartype as bt
     k = op[0]
+    v = ctx.v
     try:
         if k == 'conf':
-            r = BeartypeConf(**CONFS[op[1]]())
+            r = BeartypeConf(**v.confs[op[1]]())
             ctx.objs.append(r)
             return ['obj', len(ctx.objs) - 1, 'BeartypeConf']
         if k == 'typehint':
             from beartype.door import TypeHint
-            r = TypeHint(HINTS[op[1]]())
+            r = TypeHint(v.hints[op[1]]())
             ctx.objs.append(r)
             return ['obj', len(ctx.objs) - 1, type(r).__name__]
         if k == 'is_bearable':
             from beartype.door import is_bearable
-            return ['val', bool(is_bearable(OBJS[op[1]](), HINTS[op[2]]()))]
+            return ['val', bool(is_bearable(v.objs[op[1]](), v.hints[op[2]]()))]
         if k == 'die_if':
             from beartype.door import die_if_unbearable
-            die_if_unbearable(OBJS[op[1]](), HINTS[op[2]]())
+            die_if_unbearable(v.objs[op[1]](), v.hints[op[2]]())
             return ['ok']
         if k == 'is_subhint':
             from beartype.door import is_subhint
-            return ['val', bool(is_subhint(HINTS[op[1]](), HINTS[op[2]]()))]
+            return ['val', bool(is_subhint(v.hints[op[1]](), v.hints[op[2]]()))]
         if k == 'decorate':
-            h = HINTS[op[2]]()
+            h = v.hints[op[2]]()
 
             def f(x: h) -> h:
                 return x
-            ctx.slots[op[1]] = bt(conf=BeartypeConf(**CONFS[op[3]]()))(f)
+            ctx.slots[op[1]] = bt(conf=BeartypeConf(**v.confs[op[3]]()))(f)
             return ['ok']
         if k == 'call':
             f = ctx.slots.get(op[1])
             if f is None:
                 return ['skipped']
-            r = f(OBJS[op[2]]())
-            return ['val', type(r).__name__]
+            r = f(v.objs[op[2]]())
+            return ['val', type(r).__name__.rstrip('0123456789')]
         if k == 'decor_factory':
-            d = bt(conf=BeartypeConf(**CONFS[op[1]]()))
+            d = bt(conf=BeartypeConf(**v.confs[op[1]]()))
             return ['val', callable(d)]
         if k in ('pkg', 'pkgs', 'all', 'enter'):
             from beartype.claw import beartype_all, beartype_package, beartype_packages, beartyping
-            conf = BeartypeConf(**CONFS[op[-1]]())
+            conf = BeartypeConf(**v.confs[op[-1]]())
             if k == 'pkg':
                 beartype_package(op[1], conf=conf)
             elif k == 'pkgs':
@@ -269,14 +301,14 @@ def do_op(op, ctx: Ctx, tid: int):
             return ['ok']
         if k == 'lookup':
             from beartype.claw._package.clawpkgtrie import get_package_conf_or_none
-            return ['val', conf_label(get_package_conf_or_none(op[1]))]
+            return ['val', conf_label(get_package_conf_or_none(op[1]), v)]
         return ['bad-op']
     except Exception as e:  # noqa: BLE001 outcome
         return ['exc', type(e).__name__, str(e)[:160]]
 
 
 def canon(per_thread, ctx: Ctx, queries):
-    """Canonical, process-independent form of a run: identity classes by first occurrence in (thread, op) order;
+    """Canonical, trial-independent form of a run: identity classes by first occurrence in (thread, op) order;
     exception messages dropped (kept aside for the report)."""
     ids: dict[int, int] = {}
     out = []
@@ -296,7 +328,7 @@ def canon(per_thread, ctx: Ctx, queries):
         from beartype.claw._clawstate import claw_state
         from beartype.claw._package.clawpkgtrie import get_package_conf_or_none
         hook = claw_state.beartype_path_hook is not None and claw_state.beartype_path_hook in sys.path_hooks
-        final = ['hook' if hook else 'nohook'] + [conf_label(get_package_conf_or_none(q)) for q in queries]
+        final = ['hook' if hook else 'nohook'] + [conf_label(get_package_conf_or_none(q), ctx.v) for q in queries]
     return {'threads': out, 'final': final}
 
 
@@ -307,10 +339,10 @@ def merges(lens):
 
 
 # ---------------------------------------------------------------------------
-# one trial, in the forked child
+# one trial
 # ---------------------------------------------------------------------------
-def child_sequential(sc, order):
-    ctx = Ctx(len(sc['threads']))
+def run_sequential(sc, order):
+    ctx = Ctx(len(sc['threads']), fresh_trial())
     pos = [0] * len(sc['threads'])
     per = [[] for _ in sc['threads']]
     for t in order:
@@ -320,10 +352,10 @@ def child_sequential(sc, order):
             'messages': [o[2] for row in per for o in row if o[0] == 'exc']}
 
 
-def child_concurrent(sc, chooser_spec, gran):
+def run_concurrent(sc, chooser_spec, gran):
     from .. import sched
-    ctx = Ctx(len(sc['threads']))
-    s = sched.Scheduler(sched.make_chooser(chooser_spec), PFX, focus_files=FOCUS,
+    ctx = Ctx(len(sc['threads']), fresh_trial())
+    s = sched.Scheduler(sched.make_chooser(chooser_spec, PFX), PFX, focus_files=FOCUS,
                         opcode_files=FOCUS if gran == 'opcode' else ())
     per = [[] for _ in sc['threads']]
 
@@ -334,66 +366,48 @@ def child_concurrent(sc, chooser_spec, gran):
         return run
     for t in range(len(sc['threads'])):
         s.spawn(body(t))
-    # per-file focus counters (for stratified preemption points) are kept by a wrapper of yield_point
     s.run(hang_timeout=60.0)
     res = {'rle': s.rle, 'decisions': s.decisions, 'switches': s.switches, 'fatal': s.fatal,
            'counts': [[t.n_any, t.n_focus, t.n_lock] for t in s.threads], 'pool': list(POOL_EVENTS),
-           'errors': [type(t.error).__name__ if t.error is not None else None for t in s.threads],
-           'locks': s.lock_log[:400], 'diverged': getattr(s.chooser, 'diverged', None)}
+           'locks': s.lock_log[:400], 'diverged': getattr(s.chooser, 'diverged', None),
+           'locs': [{':'.join([k[0][len(PFX):]] + [str(x) for x in k[1:]]): n for k, n in t.locs.items()} for t in s.threads]}
+    res['edges'] = lock_edges(s.lock_log)
     if s.fatal is None:
         res['outcome'] = canon(per, ctx, sc.get('queries'))
         res['messages'] = [o[2] for row in per for o in row if o[0] == 'exc']
-        # direct identity oracle: results of equal constructor arguments
         res['identity'] = identity_classes(sc, per, ctx)
     else:
         res['partial'] = [[o[:2] for o in row] for row in per]
     return res
 
 
+def lock_edges(log):
+    """dynamic lock nesting: [outer, inner] for every acquisition of `inner` by a thread holding `outer`
+    (outer == inner: re-entrant re-acquisition)"""
+    stacks: dict = {}
+    edges = set()
+    for tid, what, label in log:
+        st = stacks.setdefault(tid, [])
+        if what == 'acq':
+            for o in st:
+                edges.add((o, label))
+            st.append(label)
+        elif label in st:
+            st.reverse()
+            st.remove(label)
+            st.reverse()
+    return sorted(edges)
+
+
 def identity_classes(sc, per, ctx):
-    """{constructor key: number of distinct objects returned for it} for conf/typehint ops"""
+    """{constructor key: number of distinct objects returned for it} for conf/typehint ops (direct identity oracle)"""
     groups: dict[str, set] = {}
     for t, outs in enumerate(per):
         for op, o in zip(sc['threads'][t], outs):
-            if o[0] == 'obj':
+            if o[0] == 'obj' and op[1] != 'unhashable':
                 key = op[0] + ':' + ('K2' if op[1] == 'K2b' else op[1])
                 groups.setdefault(key, set()).add(id(ctx.objs[o[1]]))
     return {k: len(v) for k, v in groups.items()}
-
-
-def forked(fn, *args, timeout=90.0):
-    r, w = os.pipe()
-    pid = os.fork()
-    if pid == 0:
-        code = 0
-        try:
-            os.close(r)
-            try:
-                data = json.dumps(fn(*args), default=str)
-            except BaseException:  # noqa: BLE001
-                data = json.dumps({'harness_error': traceback.format_exc()[-3000:]})
-            with os.fdopen(w, 'w') as f:
-                f.write(data)
-        finally:
-            os._exit(code)
-    os.close(w)
-    chunks = []
-    deadline = time.time() + timeout
-    with os.fdopen(r, 'rb') as f:
-        while True:
-            left = deadline - time.time()
-            if left <= 0:
-                os.kill(pid, signal.SIGKILL)
-                os.waitpid(pid, 0)
-                return {'fatal': {'kind': 'hang', 'threads': []}, 'rle': [], 'decisions': 0, 'switches': 0, 'pool': []}
-            rd, _, _ = select.select([f], [], [], left)
-            if rd:
-                b = os.read(f.fileno(), 1 << 20)
-                if not b:
-                    break
-                chunks.append(b)
-    os.waitpid(pid, 0)
-    return json.loads(b''.join(chunks).decode() or '{"harness_error": "child wrote nothing"}')
 
 
 # ---------------------------------------------------------------------------
@@ -402,8 +416,6 @@ def forked(fn, *args, timeout=90.0):
 def judge(sc, res, refset):
     """-> list of (failure kind, text). Evaluated on the REAL outcome of one schedule."""
     out = []
-    if res.get('harness_error'):
-        return [('harness-error', res['harness_error'])]
     if res.get('fatal'):
         f = res['fatal']
         out.append((f['kind'], f'{f["kind"]}: ' + '; '.join(
@@ -422,7 +434,7 @@ def judge(sc, res, refset):
         ref_excs = {o[1] for r in refset for row in json.loads(r)['threads'] for o in row if o[0] == 'exc'}
         new = [e for e in excs if e not in ref_excs]
         if new:
-            out.append(('exception:' + new[0], f'exception {new[0]} no sequential order raises: {res.get("messages", [])[:1]}'))
+            out.append(('exception:' + new[0], f'exception {new[0]} that no sequential order raises: {res.get("messages", [])[:1]}'))
         elif not out:
             out.append(('not-serializable', 'per-thread results / final state equal those of NO sequential order of the same operations'))
     return out
@@ -432,39 +444,58 @@ def judge(sc, res, refset):
 # schedule families
 # ---------------------------------------------------------------------------
 def schedules(sc, seed, budget, calib):
-    """Deterministic (seeded) list of chooser specs. calib = per serial order: per-thread [n_any, n_focus, n_lock]."""
+    """Deterministic (seeded) list of chooser specs.
+    calib = per serial order: {'counts': per-thread [n_any, n_focus, n_lock], 'locs': per-thread {location: visits}}."""
     rng = random.Random(seed)
     n = len(sc['threads'])
-    orders = [list(p) for p in itertools.permutations(range(n))]
-    out = [['serial', o] for o in orders]
-    nf = [max(c[t][1] for c in calib) for t in range(n)]
-    na = [max(c[t][0] for c in calib) for t in range(n)]
-    nl = [max(c[t][2] for c in calib) for t in range(n)]
+    out = []
+    nf = [max(c['counts'][t][1] for c in calib) for t in range(n)]
+    na = [max(c['counts'][t][0] for c in calib) for t in range(n)]
+    nl = [max(c['counts'][t][2] for c in calib) for t in range(n)]
+    locs = [{} for _ in range(n)]
+    for c in calib:
+        for t in range(n):
+            for k, v in c['locs'][t].items():
+                locs[t][k] = max(locs[t].get(k, 0), v)
 
     def order_with_first(t):
         o = list(range(n))
         rng.shuffle(o)
         o.remove(t)
         return [t] + o
-    # F2a: one preemption at EVERY lock event of every thread (exhaustive, small)
+
+    def second(a):
+        """a preemption of some other thread b, handing control back to a"""
+        b = rng.choice([x for x in range(n) if x != a])
+        if rng.random() < 0.5:
+            return b, [b, 'any', rng.randint(1, max(1, na[b])), a]
+        return b, [b, 'focus', rng.randint(1, max(1, nf[b])), a]
+    # F2a: one preemption at EVERY lock event (acquire / release) of every thread
     for t in range(n):
         for i in range(1, nl[t] + 1):
             out.append(['preempt', order_with_first(t), [[t, 'lock', i, None]]])
-    # F2b: one preemption at every focus event (exhaustive when affordable, else evenly sampled)
-    pts = [(t, i) for t in range(n) for i in range(1, nf[t] + 1)]
-    if len(pts) > budget['single']:
-        pts = rng.sample(pts, budget['single'])
-    for t, i in sorted(pts):
-        out.append(['preempt', order_with_first(t), [[t, 'focus', i, None]]])
-    # F3: two/three preemptions: first in a focus event of thread a, second in thread b (focus or anywhere), back to a
+    # F2b/F3: preemption at the 1st, 2nd, 3rd and last visit of every distinct focus LOCATION (stratified: a line
+    # visited once counts as much as a memo wrapper line visited hundreds of times); alone (F2b) and followed by a
+    # second preemption of the thread that was switched to (F3). Locations of the lock-protected ("core") files
+    # first and exhaustively, the others up to the budget.
+    core, rest = [], []
+    for t in range(n):
+        for k, v in sorted(locs[t].items()):
+            occ = sorted({1, 2, 3, v} & set(range(1, v + 1)))
+            (core if k.split(':')[0] in CORE_REL else rest).extend((t, k, o) for o in occ)
+    rng.shuffle(rest)
+    if len(core) > budget['core']:
+        core = rng.sample(core, budget['core'])
+    pts = core + rest[:budget['single']]
+    for t, k, o in pts:
+        out.append(['preempt', order_with_first(t), [[t, '@' + k, o, None]]])
+        b, p2 = second(t)
+        out.append(['preempt', [t] + [x for x in range(n) if x != t], [[t, '@' + k, o, b], p2]])
+    # F3b: two/three preemptions at uniformly drawn focus events
     for _ in range(budget['double']):
         a = rng.randrange(n)
-        b = rng.choice([x for x in range(n) if x != a])
-        p = [[a, 'focus', rng.randint(1, max(1, nf[a])), b]]
-        if rng.random() < 0.5:
-            p.append([b, 'focus', rng.randint(1, max(1, nf[b])), a])
-        else:
-            p.append([b, 'any', rng.randint(1, max(1, na[b])), a])
+        b, p2 = second(a)
+        p = [[a, 'focus', rng.randint(1, max(1, nf[a])), b], p2]
         if rng.random() < 0.3:
             p.append([a, 'focus', rng.randint(p[0][2], max(p[0][2], nf[a])), None])
         out.append(['preempt', [a] + [x for x in range(n) if x != a], p])
@@ -478,92 +509,16 @@ def schedules(sc, seed, budget, calib):
     # F5: random walks
     for _ in range(budget['random']):
         out.append(['random', rng.getrandbits(32), rng.choice([0.02, 0.1, 0.3]), rng.choice([0.0, 0.0005, 0.003])])
+    rng.shuffle(out)
     return out
-
-
-def shrink(sc, gran, rle, kinds, refset):
-    """Shortest prefix of the failing schedule (then: no further preemption) that still fails the same way."""
-    def fails(prefix):
-        r = forked(child_concurrent, sc, ['replay', prefix], gran)
-        return bool({k for k, _ in judge(sc, r, refset)} & kinds), r
-    lo, hi = 0, len(rle)
-    best = None
-    while lo < hi:
-        mid = (lo + hi) // 2
-        ok, r = fails(rle[:mid])
-        if ok:
-            hi, best = mid, r
-        else:
-            lo = mid + 1
-    if best is None:
-        return rle, None
-    return best['rle'], best
 
 
 def reference(sc):
     refs = {}
     for order in merges([len(t) for t in sc['threads']]):
-        r = forked(child_sequential, sc, order)
-        if r.get('harness_error'):
-            raise RuntimeError(r['harness_error'])
+        r = run_sequential(sc, order)
         refs.setdefault(json.dumps(r['outcome'], sort_keys=True), list(order))
     return refs
-
-
-def explore(p):
-    sc, gran, seed = p['scenario'], p['gran'], p['seed']
-    t0 = time.time()
-    refs = reference(sc)
-    refset = set(refs)
-    calib = []
-    n = len(sc['threads'])
-    stats = {'schedules': 0, 'decisions': 0, 'switches': 0, 'distinct_outcomes': set(), 'distinct_schedules': set(),
-             'kinds': {}, 'contended': 0, 'nonserial': 0}
-    failures = []
-    for o in itertools.permutations(range(n)):
-        r = forked(child_concurrent, sc, ['serial', list(o)], gran)
-        if r.get('harness_error'):
-            raise RuntimeError(r['harness_error'])
-        calib.append(r.get('counts') or [[1, 1, 1]] * n)
-    specs = schedules(sc, seed, p['budget'], calib)
-    deadline = t0 + p.get('time_limit', 1e9)
-    for spec in specs:
-        if time.time() > deadline:
-            stats['time_limited'] = True
-            break
-        r = forked(child_concurrent, sc, spec, gran)
-        stats['schedules'] += 1
-        stats['decisions'] += r.get('decisions', 0)
-        stats['switches'] += r.get('switches', 0)
-        stats['kinds'][spec[0]] = stats['kinds'].get(spec[0], 0) + 1
-        key = json.dumps(r.get('rle'))
-        if key not in stats['distinct_schedules']:
-            stats['distinct_schedules'].add(key)
-            # non-trivial: >= 2 context switches beyond the serial hand-overs, i.e. a real preemption happened
-            if r.get('switches', 0) >= n:
-                stats['nonserial'] += 1
-            if any(w == 'acq' for _, w, _ in r.get('locks', [])) and _contended(r):
-                stats['contended'] += 1
-        if 'outcome' in r:
-            stats['distinct_outcomes'].add(json.dumps(r['outcome'], sort_keys=True))
-        bad = judge(sc, r, refset)
-        if bad:
-            kinds = {k for k, _ in bad}
-            rle, rr = shrink(sc, gran, r['rle'], kinds, refset)
-            rr = rr or r
-            bad2 = judge(sc, rr, refset) or bad
-            failures.append({'kind': bad2[0][0], 'what': bad2[0][1], 'all': bad2, 'rle': rle, 'spec': spec,
-                             'outcome': rr.get('outcome') or rr.get('partial'), 'fatal': rr.get('fatal'),
-                             'messages': rr.get('messages'), 'switches': rr.get('switches'), 'locks': rr.get('locks', [])[:60]})
-            if len({f['kind'] for f in failures}) >= 3 or len(failures) >= 6:
-                break
-    stats['distinct_outcomes'] = len(stats['distinct_outcomes'])
-    stats['distinct_schedules'] = len(stats['distinct_schedules'])
-    stats['reference_orders'] = len(merges([len(t) for t in sc['threads']]))
-    stats['reference_outcomes'] = len(refs)
-    stats['calibration'] = calib[0]
-    stats['wall_s'] = round(time.time() - t0, 2)
-    return {'stats': stats, 'failures': failures, 'reference': sorted(refs)[:4]}
 
 
 def _contended(r):
@@ -575,18 +530,76 @@ def _contended(r):
     return any(len(v) > 1 for v in seen.values())
 
 
-def replay(p):
-    sc = p['scenario']
+def episode(p):
+    sc, gran = p['scenario'], p['gran']
+    t0 = time.time()
+    n = len(sc['threads'])
     refs = reference(sc)
-    r = forked(child_concurrent, sc, ['replay', p['rle']], p['gran'])
-    bad = judge(sc, r, set(refs))
-    return {'result': r, 'failures': bad, 'reference': sorted(refs), 'reference_orders': {k: v for k, v in refs.items()}}
+    refset = set(refs)
+    stats = {'schedules': 0, 'decisions': 0, 'switches': 0, 'distinct_outcomes': set(), 'distinct_schedules': set(),
+             'kinds': {}, 'contended': 0, 'nonserial': 0, 'lock_edges': set()}
+    failures = []
+    executed = []
+    calib = []
+    serials = [['serial', list(o)] for o in itertools.permutations(range(n))]
+    explicit = p.get('specs')
+    specs = list(explicit) if explicit is not None else list(serials)
+    deadline = t0 + p.get('time_limit', 1e9)
+    last = None
+    i = 0
+    while i < len(specs):
+        spec = specs[i]
+        i += 1
+        if time.time() > deadline:
+            stats['time_limited'] = True
+            break
+        r = run_concurrent(sc, spec, gran)
+        executed.append(spec)
+        last = r
+        stats['schedules'] += 1
+        stats['decisions'] += r.get('decisions', 0)
+        stats['switches'] += r.get('switches', 0)
+        stats['kinds'][spec[0]] = stats['kinds'].get(spec[0], 0) + 1
+        stats['lock_edges'].update(tuple(e) for e in r.get('edges', []))
+        key = json.dumps(r.get('rle'))
+        if key not in stats['distinct_schedules']:
+            stats['distinct_schedules'].add(key)
+            if r.get('switches', 0) >= n:      # beyond the n-1 hand-overs of a serial run: a real preemption/blocking
+                stats['nonserial'] += 1
+            if _contended(r):
+                stats['contended'] += 1
+        if 'outcome' in r:
+            stats['distinct_outcomes'].add(json.dumps(r['outcome'], sort_keys=True))
+        bad = judge(sc, r, refset)
+        if bad:
+            failures.append({'kind': bad[0][0], 'what': bad[0][1], 'all': bad, 'rle': r['rle'], 'spec': spec,
+                             'index': len(executed) - 1, 'history': list(executed),
+                             'outcome': r.get('outcome') or r.get('partial'), 'fatal': r.get('fatal'),
+                             'messages': r.get('messages'), 'switches': r.get('switches'),
+                             'at': [t.get('at') for t in (r.get('fatal') or {}).get('threads', [])],
+                             'locks': r.get('locks', [])[:60]})
+            if r.get('fatal') or len({f['kind'] for f in failures}) >= 3 or len(failures) >= 4:
+                break   # after a deadlock/hang the interpreter state is not trustworthy
+        if explicit is None and spec[0] == 'serial':
+            calib.append({'counts': r['counts'], 'locs': r['locs']})
+            if len(calib) == len(serials):
+                specs += schedules(sc, p['seed'], p['budget'], calib)
+    stats['distinct_outcomes'] = len(stats['distinct_outcomes'])
+    stats['lock_edges'] = sorted(stats['lock_edges'])
+    stats['distinct_schedules'] = len(stats['distinct_schedules'])
+    stats['reference_orders'] = len(merges([len(t) for t in sc['threads']]))
+    stats['reference_outcomes'] = len(refs)
+    stats['calibration'] = calib[0]['counts'] if calib else None
+    stats['focus_locations'] = [len(x) for x in calib[0]['locs']] if calib else None
+    stats['wall_s'] = round(time.time() - t0, 2)
+    return {'stats': stats, 'failures': failures, 'reference': sorted(refs)[:6], 'last': last,
+            'last_verdict': judge(sc, last, refset) if last else None}
 
 
 def main():
     p = json.loads(sys.stdin.read())
     locks = setup(p['scenario'].get('warm', True))
-    out = explore(p) if p['mode'] == 'explore' else replay(p)
+    out = episode(p)
     out['locks_replaced'] = sorted(locks)
     print(json.dumps(out, default=str))
 
